@@ -284,6 +284,11 @@ def check_case(case, res: Result):
     n_burst = len(burst)
     res.count("same_tick_conflicting_request_bursts", n_burst)
 
+    seen_req: dict[str, int] = {}
+    for q in reqs:
+        seen_req[q[2]] = seen_req.get(q[2], 0) + 1
+    dup_req = {i for i, c in seen_req.items() if c >= 2}
+
     def in_burst(involved):
         return any(i in ids for ids in burst.values() for i in involved)
 
@@ -299,6 +304,11 @@ def check_case(case, res: Result):
             continue
         if in_burst(involved):
             mech = "C11.conflicting_requests_in_one_tick"
+        elif any(i in dup_req for i in involved):
+            # (c) two CommandRequests were scheduled under one instance id: visit_UodCommandNode takes
+            #     record.last_instance_id instead of the id created for its own visit, so two interpreter paths walking
+            #     the same line (stale Watch/Alarm handler surviving a reset, see C02 findings) request "the same" instance
+            mech = "C11.two_requests_share_one_instance_id"
         elif any(i in cancel_aborted for i in involved):
             # (b) CommandManager._cancel_command called cmd.cancel() on the instance, then Tracking.mark_cancelled raised
             #     because the AST node refused node.cancel() (its cancel flag was already set by an earlier cancel of
